@@ -2,6 +2,7 @@ pub mod c04;
 pub mod c09;
 pub mod c15;
 pub mod hostile;
+pub mod noninterference;
 pub mod c17;
 pub mod c18;
 pub mod c19;
@@ -11,5 +12,5 @@ pub mod solo_props;
 use crate::runner::PropDef;
 
 pub fn all() -> Vec<PropDef> {
-    vec![c04::def(), c09::def(), c15::def(), c17::def(), c18::def(), c19::def(), c20::def()]
+    vec![solo_props::c02_def(), solo_props::c03_def(), c04::def(), solo_props::c05_def(), solo_props::c08_def(), c09::def(), solo_props::c10_def(), c15::def(), c17::def(), c18::def(), c19::def(), c20::def()]
 }
